@@ -17,6 +17,7 @@ package main
 
 import (
 	"encoding/json"
+	"flag"
 	"fmt"
 	"os"
 	"path/filepath"
@@ -218,8 +219,37 @@ func features(c *c07.Cfg, res *hx.Result) (nontrivial bool) {
 	return backs >= 2 && dynvals >= 1
 }
 
+// writeCorpus stores the built-in minimal histories and generator cases in /verif/corpus/C07.
+func writeCorpus() {
+	dir := "/verif/corpus/C07"
+	os.MkdirAll(dir, 0o755)
+	put := func(name string, in genInput, note string) {
+		b, err := json.MarshalIndent(map[string]interface{}{"property": "C07", "note": note, "input": in}, "", " ")
+		if err != nil {
+			panic(err)
+		}
+		if err := os.WriteFile(filepath.Join(dir, name+".json"), b, 0o644); err != nil {
+			panic(err)
+		}
+	}
+	for _, c := range c07.Corpus() {
+		put(c.Name, genInput{Kind: "scenario", Scen: &c07.Scenario{Opt: c.Opt, History: world.EncodeHistory(c.H), Origin: "corpus"}}, strings.Join(describe(c.H), " / "))
+	}
+	put("20-names-pod-named-like-slot", genInput{Kind: "names", Names: &c07.NamesInput{Mode: "pod", Ops: []c07.EpOp{{IP: "10.0.0.1", Port: 8080, TargetRef: "ns1/srv002"}, {Empty: true}}}},
+		"AddEndpoint(pod ns1/srv002) then AddEmptyEndpoint(): [srv002 srv002] before the repair of sanitizeName")
+	put("21-names-pod-mixed", genInput{Kind: "names", Names: &c07.NamesInput{Mode: "pod", Ops: []c07.EpOp{{IP: "10.0.0.1", Port: 80, TargetRef: "ns1/srv002__2"}, {IP: "10.0.0.2", Port: 80, TargetRef: "ns1/srv002"}, {Empty: true}, {IP: "10.0.0.3", Port: 80, TargetRef: ""}, {IP: "10.0.0.4", Port: 80, TargetRef: "ns2/srv002"}}}},
+		"pod names colliding with slot names and with the __n suffixes")
+	put("22-auth-range-full", genInput{Kind: "auth", Auth: &c07.AuthInput{Ops: []c07.AuthOp{{Kind: "acquire", RangeStart: 14415, RangeEnd: 14416, Backend: "a"}, {Kind: "acquire", RangeStart: 14415, RangeEnd: 14416, Backend: "b"}, {Kind: "acquire", RangeStart: 14415, RangeEnd: 14416, Backend: "c"}, {Kind: "bytarget", Backends: []string{"a"}}, {Kind: "acquire", RangeStart: 14415, RangeEnd: 14416, Backend: "c"}, {Kind: "acquire", RangeStart: 14416, RangeEnd: 14416, Backend: "d"}, {Kind: "except", Used: []int{14416}}, {Kind: "acquire", RangeStart: 14410, RangeEnd: 14420, Backend: "d"}}}},
+		"full range gives the error; a released port is handed out again; range changes")
+}
+
 func main() {
+	wc := flag.Bool("write-corpus", false, "write the built-in corpus to /verif/corpus/C07 and exit")
 	o := hx.Parse()
+	if *wc {
+		writeCorpus()
+		return
+	}
 	workdir = filepath.Join(o.Out, "scratch")
 	os.MkdirAll(workdir, 0o755)
 	defer os.RemoveAll(workdir)
